@@ -357,6 +357,17 @@ pub fn corrupt_str(rng: &mut Rng, s: &str) -> String {
     v.into_iter().collect()
 }
 
+pub const HOSTILE_SIGS: &[&str] = &[
+    "", "(", ")", "()", "()V", "(L", "(Lfoo)V", "()Lfoo", "(;)V", "([)V", "(V)V", "()Lfoo);", "(日)本", "(I)é", "x()V", "(I", "I)V",
+    "(L\u{e9})V", "([Lfoo/Bar\u{20ac})I", "(ILa/a;L\u{1f600})La/a;", "(\u{e9}L)V", "(L\u{e9};)V", "()L\u{e9}", "()L\u{e9};", "()[\u{e9}",
+    "(L;)V", "(LL;;)V", "()\u{e9}", "(\u{1f600})\u{1f600}", "(Ia\u{308})V",
+];
+pub const HOSTILE_TEXT: &[&str] = &[
+    "at )", "at (", "at \u{e9})", "at a.b(c:1)", "at .(:0)", "at a.b(:)", "at a.b(c:+5)", "\u{a0}at a.b(c:5)\u{3000}",
+    "at\u{a0}a.b(c:5)", "at a.b(c:18446744073709551616)", "Caused by: ", "Caused by: \u{e9}: \u{e9}", ": ", "a: ", " : x", "\u{2028}", "at \u{e9}.\u{e9}(\u{e9}:1)",
+    "at a(b:1)", "at .a(b:1)", "at a.(b:1)", "at a.b(:1)", "at a.b(c:)", "at a.b(c:1:2)",
+];
+
 fn sig_queries(out: &mut Out, rng: &mut Rng, dom: bool, u: &Universe, n: usize) {
     for _ in 0..n {
         let d = gen_descriptor(rng, u);
@@ -368,7 +379,7 @@ fn sig_queries(out: &mut Out, rng: &mut Rng, dom: bool, u: &Universe, n: usize) 
             out.count("q_sig_corrupt");
         }
     }
-    for s in ["", "(", ")", "()", "()V", "(L", "(Lfoo)V", "()Lfoo", "(;)V", "([)V", "(V)V", "()Lfoo);", "(日)本", "(I)é", "x()V", "(I", "I)V"] {
+    for s in HOSTILE_SIGS {
         out.t(dom, format!("SIG {}", hxs(s)));
         out.count("q_sig_fixed");
     }
@@ -392,6 +403,17 @@ fn small_corpus() -> Vec<(String, Vec<u8>)> {
     corpus_files().into_iter().filter(|(_, b)| b.len() < 40_000).collect()
 }
 
+/// a few classes with many member lines over few obfuscated names (groups of > 20 entries:
+/// sort stability, long inline chains)
+fn big_class_cfg() -> Cfg {
+    let mut cfg = Cfg::domain();
+    cfg.min_classes = 1;
+    cfg.max_classes = 3;
+    cfg.max_members = 70;
+    cfg.noise_pct = 2;
+    cfg
+}
+
 pub fn gen_c01(rng: &mut Rng, tier: &str, out: &mut Out) {
     let th = thorough(tier);
     let n = if th { 1500 } else { 90 };
@@ -400,6 +422,9 @@ pub fn gen_c01(rng: &mut Rng, tier: &str, out: &mut Out) {
         if i % 7 == 0 {
             cfg.max_classes = 2;
             cfg.max_members = 14;
+        }
+        if i % 9 == 4 {
+            cfg = big_class_cfg();
         }
         let text = domain_mapping(rng, &cfg);
         map_op(out, true, &text);
@@ -438,7 +463,7 @@ pub fn gen_c02(rng: &mut Rng, tier: &str, out: &mut Out) {
     let th = thorough(tier);
     let n = if th { 1200 } else { 70 };
     for i in 0..n {
-        let cfg = Cfg::domain();
+        let cfg = if i % 10 == 6 { big_class_cfg() } else { Cfg::domain() };
         let mut text = domain_mapping(rng, &cfg);
         if i % 4 == 3 {
             // token-mutated, filtered back into the representable domain
@@ -508,6 +533,10 @@ pub fn gen_c03(rng: &mut Rng, tier: &str, out: &mut Out) {
         cfg.min_classes = 2;
         cfg.max_classes = 5;
         cfg.noise_pct = 5;
+        if rng.pct(8) {
+            cfg.max_members = 60;
+            cfg.max_classes = 3;
+        }
         let text = domain_mapping(rng, &cfg);
         map_op(out, true, &text);
         let u = universe(&text);
@@ -859,6 +888,9 @@ pub fn gen_c09(rng: &mut Rng, tier: &str, out: &mut Out) {
             cfg.max_classes = if th { 300 } else { 40 };
             cfg.max_members = 3;
         }
+        if i % 9 == 5 {
+            cfg = big_class_cfg();
+        }
         let text = domain_mapping(rng, &cfg);
         map_op(out, true, &text);
         out.d("WRITE".into());
@@ -1111,6 +1143,21 @@ pub fn gen_c12(rng: &mut Rng, tier: &str, out: &mut Out) {
             out.d(format!("BTXT {}", hxs(&tg.text(rng))));
             out.d(format!("BTYP {}", hxs(&tg.text(rng))));
             out.d(format!("BSIG {}", hxs(&gen_descriptor(rng, &u))));
+            let d = gen_descriptor(rng, &u);
+            out.d(format!("BSIG {}", hxs(&corrupt_str(rng, &d))));
+        }
+    }
+    // signature / text queries with multi-byte characters at slice boundaries, against a valid cache
+    {
+        let text = b"o.A -> a:\n    1:3:void x():1:3 -> m\n";
+        let bytes = crate::proto::cur::write_cache_safe(text);
+        out.d(format!("BUF {}", hx(&bytes)));
+        for s in HOSTILE_SIGS {
+            out.d(format!("BSIG {}", hxs(s)));
+        }
+        for s in HOSTILE_TEXT {
+            out.d(format!("BTXT {}", hxs(s)));
+            out.d(format!("BTYP {}", hxs(s)));
         }
     }
     // F5 anchor: endline truncated to 0 with a real original range
@@ -1163,8 +1210,11 @@ pub fn gen_c13(rng: &mut Rng, tier: &str, out: &mut Out) {
     out.d(format!("FRL {} {} 2 -", hxs("a"), hxs("m")));
     map_op(out, true, b"o.A -> a:\n    5:4294967296:void x():1:3 -> m\n");
     out.d(format!("FRL {} {} 0 -", hxs("a"), hxs("m")));
-    for s in ["at )", "at (", "at é)", "at a.b(c:1)", "at .(:0)", "at a.b(:)", "at a.b(c:+5)", "\u{a0}at a.b(c:5)\u{3000}"] {
+    for s in HOSTILE_TEXT {
         out.d(format!("FRM {}", hxs(s)));
+        out.d(format!("THW {}", hxs(s)));
+        out.d(format!("TXT {}", hxs(s)));
+        out.d(format!("TYP {}", hxs(s)));
     }
 }
 
